@@ -522,6 +522,11 @@ func lexer(in string) (<-chan token, <-chan error) {
 	return lex, errors
 }
 
+// maxExpansionNesting limits how deep ${...} may be nested in one string (the
+// limit Merge and parse.Value apply to the nesting of values): expansions are
+// evaluated recursively, a string must not be able to exhaust the stack.
+const maxExpansionNesting = 10000
+
 func parseVarExp(lex <-chan token, pathSep string, maxIdx int64, enableNumKeys, allowEscapePath bool) (varEvaler, error) {
 	stack := []parseState{{st: stLeft}}
 
@@ -529,6 +534,9 @@ func parseVarExp(lex <-chan token, pathSep string, maxIdx int64, enableNumKeys, 
 	for tok := range lex {
 		switch tok.typ {
 		case tokOpen:
+			if len(stack) > maxExpansionNesting {
+				return nil, fmt.Errorf("expansions nested deeper than %d levels", maxExpansionNesting)
+			}
 			stack = append(stack, parseState{st: stLeft, isvar: true})
 		case tokClose:
 			// finalize and pop state
